@@ -30,6 +30,7 @@ type c11World struct {
 	Tpl   string // saved pre-state of root/versions/sidecar
 	Creds gw.Creds
 	self  string // vharness binary (tracer helper)
+	Lock  bool   // object-lock bucket: observations include the legal hold
 }
 
 func newC11World(gwBin, work string, noOTmp, sidecar, versioning bool) (*c11World, error) {
@@ -277,9 +278,11 @@ type c11ObjView struct {
 	CLen    string            `json:"clen"`
 	Meta    map[string]string `json:"meta"`
 	Vid     string            `json:"vid"`
-	Tags    string            `json:"tags"` // canonical k=v&k=v, "-" = none, "!<status>" = error
-	Head    string            `json:"head"` // status:len:etag
-	ListSz  string            `json:"list"` // size:etag from ListObjectsV2, "-" = not listed
+	Tags    string            `json:"tags"`           // canonical k=v&k=v, "-" = none, "!<status>" = error
+	Hold    string            `json:"hold"`           // GetObjectLegalHold: ON | OFF | "" (none) | "!<status>"
+	Died    string            `json:"died,omitempty"` // the gateway answered GET and then stopped answering: at which request
+	Head    string            `json:"head"`           // status:len:etag
+	ListSz  string            `json:"list"`           // size:etag from ListObjectsV2, "-" = not listed
 }
 
 type listV2 struct {
@@ -352,7 +355,7 @@ func canonTags(body []byte) string {
 	return strings.Join(kv, "&")
 }
 
-func (w *c11World) observeKey(addr, bucket, key string) c11ObjView {
+func (w *c11World) observeKey(addr, bucket, key string, withHold bool) c11ObjView {
 	v := c11ObjView{Meta: map[string]string{}, ListSz: "-"}
 	p := "/" + bucket + "/" + gw.EncodePath(key)
 	g := w.do(addr, gw.Req{Method: "GET", Path: p})
@@ -374,17 +377,44 @@ func (w *c11World) observeKey(addr, bucket, key string) c11ObjView {
 		}
 	}
 	h := w.do(addr, gw.Req{Method: "HEAD", Path: p})
+	if g.Status > 0 && h.Status <= 0 {
+		v.Died = "HeadObject got no answer"
+		return v
+	}
 	v.Head = fmt.Sprintf("%d:%s:%s", h.Status, h.Headers.Get("Content-Length"), h.Headers.Get("ETag"))
 	if h.Status != 200 {
 		v.Head = fmt.Sprintf("%d", h.Status)
 	}
 	t := w.do(addr, gw.Req{Method: "GET", Path: p, Query: "tagging="})
+	if g.Status > 0 && t.Status <= 0 {
+		v.Died = "GetObjectTagging got no answer"
+		return v
+	}
 	if t.Status == 200 {
 		v.Tags = canonTags(t.Body)
 	} else {
 		v.Tags = fmt.Sprintf("!%d", t.Status)
 	}
+	if w.Lock && withHold && g.Status == 200 {
+		v.Hold = w.legalHold(addr, p)
+	}
 	return v
+}
+
+// legalHold asks GetObjectLegalHold: ON | OFF | "" (nothing stored) | "!<status>" | "!dies" (no answer at all).
+func (w *c11World) legalHold(addr, path string) string {
+	l := w.do(addr, gw.Req{Method: "GET", Path: path, Query: "legal-hold="})
+	switch {
+	case l.Status == 200 && bytes.Contains(l.Body, []byte("<Status>ON</Status>")):
+		return "ON"
+	case l.Status == 200 && bytes.Contains(l.Body, []byte("<Status>OFF</Status>")):
+		return "OFF"
+	case l.Status == 404 || l.Status == 400:
+		return "" // NoSuchObjectLockConfiguration: no legal hold stored
+	case l.Status <= 0:
+		return "!dies"
+	}
+	return fmt.Sprintf("!%d", l.Status)
 }
 
 func (w *c11World) listKeys(addr, bucket string) (map[string]string, error) {
